@@ -29,6 +29,12 @@ ASSUMPTIONS = [
     "both implementation behaviours, coq/Refuted/C12_*.v), is replayed on the extracted loop (entry 'validate' of "
     "coq/Extract/C12.v) with the same workbook, stored results, formula texts, tolerance and outputs; compared "
     "exactly: the mismatch dictionary (insertion order, original, calced) and every cell value after the run",
+    "failing cells (coq/Model/ValidateFail.v, entry 'validate_f'): faults are injected through the documented "
+    "mechanisms only (an unknown function name; a plugin module, plugins=, whose function raises RuntimeError or "
+    "NotImplementedError); the text of a pycel evaluation error is modelled by the chain of cells named in its "
+    "'Eval:' lines (file names and line numbers of the traceback lines are not compared); theorems about failing "
+    "cells: stored results that are present are what the formulas produce from scratch on the cells of a "
+    "precedent-closed set G (a cell that cannot be evaluated has no stored result there), anything outside G",
 ]
 
 
@@ -44,6 +50,14 @@ def _zero_tol(case):
 def _formula_text(case):
     pert = case.get('perturbed') or []
     return case.get('call') == 'validate' and len(pert) == 4 and pert[3] == 'formula-text'
+
+
+@known_predicate('C12-failed-cell-precedents-not-walked')
+def _failed_precedents(case):
+    # INERT until the coordinator lists it: the except branch of validate_calcs neither marks the cell verified nor
+    # pushes its precedents, so everything only reachable through a cell that raises (the cell that really cannot be
+    # evaluated included) is neither compared nor listed.  Model witness: coq/Refuted/C12_failed_cell_precedents.v
+    return case.get('call') == 'validate-failing' and case.get('variant') == 'precedents-of-a-failing-cell'
 
 
 def canon_model(v):
@@ -619,6 +633,338 @@ def unbounded_stream(ctx, ExcelCompiler):
                     ctx.violation(case, "unexpected exception / not-implemented entries", impl=repr(rep)[:300])
 
 
+# ------------------------------------------------------------------ cells that raise (coq/Model/ValidateFail.v)
+PLUGIN12 = '''"""fault-injection plugin for the C12 check"""
+FAILING = set()
+NIMP = set()
+
+
+def boomid(ident, *args):
+    if ident in NIMP:
+        raise NotImplementedError("no implementation for cell %s" % ident)
+    if ident in FAILING:
+        raise RuntimeError("injected failure of cell %s" % ident)
+    return 7
+'''
+
+UNKNOWN_NAMES = ['NOSUCHFUNC', 'NOSUCHFUNC', 'NOSUCHB', 'MYFUNC']
+
+
+def unlisted(ctx, case, what, **kw):
+    """A property violation whose known-finding predicate is registered here but not (yet) listed by the
+    coordinator in known_findings.json: recorded in the evidence, not counted as a violation."""
+    if ctx.match_known(case) is not None:
+        ctx.violation(case, what, **kw)
+        return
+    lst = ctx.extra.setdefault('unlisted_findings', [])
+    if len(lst) < 5:
+        lst.append(dict(case={k: repr(v)[:400] for k, v in case.items()}, what=what,
+                        **{k: repr(v)[:300] for k, v in kw.items()}))
+    ctx.extra['unlisted_findings_total'] = ctx.extra.get('unlisted_findings_total', 0) + 1
+
+
+def inject12(wb, rng, forced=()):
+    """Replace 1-3 formula cells by formulas that raise (or by a plugin call that returns 7), keeping the precedents.
+    Returns {node index: (kind, wire fault, function name)}; kinds: unknown (NameError before any precedent is read),
+    unknown-late (after the first), plugin-fail (RuntimeError), plugin-nimp (NotImplementedError), plugin-ok."""
+    faults = {}
+    formulas = [i for i in wb.formulas() if i not in forced]
+    chosen = list(forced) + rng.sample(formulas, min(len(formulas), rng.choice([0, 1, 1, 2] if forced else [1, 1, 2, 2, 3])))
+    for fcell in chosen:
+        node = wb.nodes[fcell]
+        refs = [f'A{wb.nodes[d]["row"]}' if wb.nodes[d]['kind'] != 'range' else wb.nodes[d]['addr'].split('!')[1]
+                for d in node['deps']]
+        kind = rng.choice(['unknown', 'unknown', 'unknown-late', 'plugin-fail', 'plugin-fail', 'plugin-fail',
+                           'plugin-nimp', 'plugin-ok'])
+        if kind == 'unknown-late' and not (node['deps'] and wb.nodes[node['deps'][0]]['kind'] != 'range'):
+            kind = 'unknown'
+        name = rng.choice(UNKNOWN_NAMES)
+        tag = str(1000 + fcell)          # makes the python code of every unknown-function cell unique
+        if kind == 'unknown':
+            node['text'] = f'={name}({",".join(refs + [tag])})'
+            faults[fcell] = (kind, [1, 0], name)
+        elif kind == 'unknown-late':
+            node['text'] = f'={refs[0]}+{name}({",".join(refs[1:] + [tag])})'
+            faults[fcell] = (kind, [1, 1], name)
+        else:
+            node['text'] = f'=BOOMID({fcell}{"".join("," + r for r in refs)})'
+            faults[fcell] = (kind, [2], None)
+    return faults
+
+
+def eval_lines_chain(wb, codes, faults, exc_str):
+    """The chain of cells named by the 'Eval:' lines of an exception text, outermost first (None = not understood)."""
+    import re
+    chain = []
+    for line in exc_str.split('\n'):
+        if not line.startswith('Eval: '):
+            continue
+        m = re.match(r'Eval: (%s![A-Z]+[0-9]+): (.*)$' % wbgen.SHEET, line)
+        if m and wb.index_of(m.group(1)) is not None and codes.get(wb.index_of(m.group(1))) == m.group(2):
+            chain.append(wb.index_of(m.group(1)))
+            continue
+        cands = [i for i, (kind, _, _) in faults.items() if kind.startswith('unknown') and codes.get(i) == line[6:]]
+        if len(cands) != 1:
+            return None
+        chain.append(cands[0])
+    return list(reversed(chain))
+
+
+def impl_buckets(wb, codes, faults, rep, case, ctx):
+    """failed['not-implemented'] / failed['exceptions'] as ([key, [[node, chain...]...]]...), insertion ordered."""
+    out = []
+    for name in ('not-implemented', 'exceptions'):
+        b = []
+        for key, entries in rep.get(name, {}).items():
+            es = []
+            for addr, formula, exc_str in entries:
+                i = wb.index_of(addr)
+                if i is None or formula != wb.nodes[i].get('text'):
+                    ctx.violation(case, "an exception entry does not carry the address and the formula of its cell",
+                                  impl=[addr, formula])
+                ch = eval_lines_chain(wb, codes, faults, exc_str)
+                es.append([i] + (ch if ch is not None else ['?', exc_str[-200:]]))
+            b.append([key, es])
+        out.append(b)
+    return out
+
+
+def failing_stream(ctx, ExcelCompiler):
+    """validate_calcs on .xlsx files some of whose formula cells raise — an unknown function (whole formula, or the
+    right operand of +), a plugin function that raises RuntimeError / NotImplementedError — against the loop of
+    coq/Model/ValidateFail.v: the mismatch dictionary, the two exception dictionaries (keys in insertion order, the
+    entries of each key in order: address, formula, the chain of cells in the 'Eval:' lines of the message), the
+    exception that leaves the loop under raise_exceptions=True, and every cell value after the run."""
+    import importlib
+    import sys
+    rng = ctx.rng
+    with open(os.path.join(ctx.work, 'verif_c12_plugin.py'), 'w') as f:
+        f.write(PLUGIN12)
+    sys.path.insert(0, ctx.work)
+    importlib.invalidate_caches()
+    plugin = importlib.import_module('verif_c12_plugin')
+    ctx.extra['rule'] += (
+        "; failing stream: C01-generator workbooks of 5-10 cells (often extended by a cell reading 2-3 ranges and "
+        "dependants of it) with 1-3 formula cells replaced by an unknown function (NOSUCHFUNC / NOSUCHB / MYFUNC, whole "
+        "formula or right operand of +) or a plugin call that raises RuntimeError / NotImplementedError or returns 7; "
+        "stored results: none / what the formulas produce from scratch (none for a cell that raises) / what Excel would "
+        "have stored had the functions existed (failing cells included), optionally one stored result altered; outputs: "
+        "all formulas / 1-3 formula cells in any order (repeats allowed); tolerance None / 0.001 / 1; "
+        "raise_exceptions False (mostly) / True")
+    from harness.props.c09 import extend
+    batch = []
+    try:
+        # the deterministic witness of coq/Refuted/C12_failed_cell_precedents.v first
+        jobs = [('witness', 'w')] + [('random', k) for k in range(ctx.n(110, 1100))]
+        for which, k in jobs:
+            if which == 'witness':
+                wb = wbgen.WB()
+                wb.add_input(1)
+                wb.add_formula('=A1+1', [0], [3, 0, [0, 0], [1, 1]])
+                wb.add_formula('=BOOMID(2,A2)', [1], [2, [0, 0]])
+                wb.add_formula('=A3+1', [2], [3, 0, [0, 0], [1, 1]])
+                faults = {2: ('plugin-fail', [2], None)}
+                mode, stored, pert = 'altered-precedent', {1: 3}, [wb.nodes[1]['addr'], 2, 3, 'witness']
+                outs, tol, raise_exc = [wb.nodes[3]['addr']], None, False
+            else:
+                wb = wbgen.gen_workbook(rng, ncells=rng.randrange(5, 11), pool=wbgen.CLEAN_POOL + [0, 1])
+                if not wb.formulas():
+                    continue
+                faults = inject12(wb, rng, extend(wb, rng))
+            plugin.FAILING.clear()
+            plugin.NIMP.clear()
+            plugin.FAILING.update(i for i, f in faults.items() if f[0] == 'plugin-fail')
+            plugin.NIMP.update(i for i, f in faults.items() if f[0] == 'plugin-nimp')
+            formulas = wb.formulas()
+            desc = [(x['addr'], x.get('value'), x.get('text')) for x in wb.nodes]
+            # from-scratch outcome of every formula cell (None = raises)
+            ref = ExcelCompiler(excel=wb.to_openpyxl(), plugins=('verif_c12_plugin',))
+            scratch = {}
+            for i in formulas:
+                try:
+                    scratch[i] = ('ok', ref.evaluate(wb.nodes[i]['addr']))
+                except Exception:      # noqa: BLE001
+                    scratch[i] = ('raise', None)
+            if which == 'random':
+                mode = rng.choice(['none', 'sound', 'sound', 'excel', 'excel'])
+                if mode == 'none':
+                    stored = {}
+                elif mode == 'sound':
+                    stored = {i: v for i, (st, v) in scratch.items() if st == 'ok'}
+                else:
+                    owb = wb.to_openpyxl()
+                    for i, (fk, _, _) in faults.items():
+                        owb[wbgen.SHEET].cell(row=wb.nodes[i]['row'], column=1,
+                                              value=5 if fk.startswith('unknown') else 7)
+                    xl = ExcelCompiler(excel=owb)
+                    stored = {i: xl.evaluate(wb.nodes[i]['addr']) for i in formulas}
+                pert = None
+                cands = [i for i in formulas if stored.get(i) is not None]
+                if cands and rng.random() < 0.4:
+                    p = rng.choice(cands)
+                    v = stored[p]
+                    v2 = v + 3 if isinstance(v, (int, float)) and not isinstance(v, bool) else \
+                        ('zz' if v != 'zz' else 'yy')
+                    stored = dict(stored)
+                    stored[p] = v2
+                    pert = [wb.nodes[p]['addr'], v, v2, 'altered']
+                r = rng.random()
+                if r < 0.4:
+                    outs = None
+                else:
+                    outs = [wb.nodes[rng.choice(formulas)]['addr'] for _ in range(rng.choice([1, 1, 2, 3]))]
+                tol = rng.choice([None, None, 0.001, 1])
+                raise_exc = rng.random() < 0.12
+            path = os.path.join(ctx.work, f'f{k}.xlsx')
+            wbgen.write_xlsx_with_results(wb, stored, path)
+            comp = ExcelCompiler(filename=path, plugins=('verif_c12_plugin',))
+            case = dict(call='validate-failing', workbook=desc, args=[outs, tol], stored=mode, perturbed=pert,
+                        faults={wb.nodes[i]['addr']: f[0] for i, f in faults.items()}, raise_exceptions=raise_exc,
+                        variant='correspondence')
+            raised = None
+            try:
+                rep = quiet(comp.validate_calcs, output_addrs=outs, tolerance=tol, raise_exceptions=raise_exc)
+            except Exception as exc:      # noqa: BLE001
+                if not raise_exc:
+                    ctx.violation(case, f"validate_calcs raises {type(exc).__name__}: {exc}"[-200:])
+                    continue
+                raised, rep = str(exc), {}
+            kinds = sorted({f[0] for f in faults.values()})
+            ctx.count(('failing', k, mode, repr(outs), tol, raise_exc), kind=f'failing:{mode}:' + '+'.join(kinds),
+                      sample=dict(case, report=repr({b: {kk: [e[:2] for e in vv] for kk, vv in d.items()}
+                                                     for b, d in rep.items() if b != 'mismatch'})[:300]))
+            codes = {}
+            for i in formulas:
+                cell = comp.cell_map.get(wb.nodes[i]['addr'])
+                if cell is not None and cell.formula:
+                    codes[i] = cell.formula.python_code
+            if raised is None and not raise_exc:
+                oracle_failing(ctx, case, wb, faults, scratch, stored, mode, pert, outs, rep)
+            # ---- the model call
+            texts, keytexts = [], []
+            for i, n in enumerate(wb.nodes):
+                cell = comp.cell_map.get(n['addr'])
+                t = str(cell.formula) if (cell is not None and n['kind'] == 'formula') else (n.get('text') or '')
+                texts.append([ord(c) for c in t])
+                fk = faults.get(i, ('', None, None))
+                own = ('RuntimeError: injected failure of cell %s' % i if fk[0] == 'plugin-fail' else
+                       'NotImplementedError: no implementation for cell %s' % i if fk[0] == 'plugin-nimp' else '')
+                ev = f"Eval: {n['addr']}: {codes[i]}" if i in codes else ''
+                keytexts.append([[ord(c) for c in (fk[2] or '').upper()], [ord(c) for c in own], [ord(c) for c in ev]])
+            nodes = [nd + [faults[i][1] if i in faults else [0]] for i, nd in enumerate(wb.wire(stored=stored))]
+            oidx = formulas if outs is None else [wb.index_of(a) for a in outs]
+            call = ('validate_f', [nodes, sorted(plugin.FAILING | plugin.NIMP), sorted(plugin.NIMP), texts,
+                                   enc_tol(tol), oidx, 1 if raise_exc else 0, keytexts])
+            irep = [(wb.index_of(a), canon(m.original), canon(m.calced)) for a, m in rep.get('mismatch', {}).items()]
+            ibk = impl_buckets(wb, codes, faults, rep, case, ctx)
+            iraised = eval_lines_chain(wb, codes, faults, raised) if raised is not None else None
+            batch.append((case, wb, call, irep, wbgen.snapshot(comp, wb), ibk, raised is not None, iraised))
+        if ctx.model:
+            compare_failing(ctx, batch)
+    finally:
+        sys.path.remove(ctx.work)
+        sys.modules.pop('verif_c12_plugin', None)
+
+
+def oracle_failing(ctx, case, wb, faults, scratch, stored, mode, pert, outs, rep):
+    """What the property (and coq/Props/C12.v C12_*_f) promises when cells raise."""
+    listed = {}
+    for b in ('not-implemented', 'exceptions'):
+        for key, entries in rep.get(b, {}).items():
+            for addr, _, _ in entries:
+                listed.setdefault(wb.index_of(addr), []).append((b, key))
+    mism = {wb.index_of(a) for a in rep.get('mismatch', {})}
+    sound = mode in ('none', 'sound')
+    for i in listed:
+        # with stored results on failing cells ('excel') a dependant popped after the failing cell was emptied raises
+        # although Excel's value was stored; from scratch it raises too
+        if i is None or scratch.get(i, ('ok',))[0] != 'raise':
+            ctx.violation(dict(case, variant='oracle'), "a cell that evaluates from scratch is listed under exceptions",
+                          impl=repr(listed)[:300])
+    if sound and pert is None and mism:
+        ctx.violation(dict(case, variant='oracle'), "a mismatch is reported although every stored result present is "
+                      "what the formulas produce", impl=repr(rep.get('mismatch'))[:300])
+    if pert is not None:
+        p = wb.index_of(pert[0])
+        dep_p = wb.descendants(p) | {p}
+        for m in mism:
+            if sound and m not in dep_p:
+                ctx.violation(dict(case, variant='oracle'), f"{wb.nodes[m]['addr']} is reported as a mismatch but does "
+                              "not depend on the altered cell", impl=repr(rep.get('mismatch'))[:300])
+        oi = set(wb.formulas() if outs is None else [wb.index_of(a) for a in outs])
+        if sound and p in oi and scratch[p][0] == 'ok':
+            mm = rep.get('mismatch', {}).get(pert[0])
+            if mm is None or canon(mm.original) != canon(pert[2]) or canon(mm.calced) != canon(pert[1]):
+                ctx.violation(dict(case, variant='oracle'), "the altered cell is a checked output, evaluates, and is "
+                              "not reported with its stored and recomputed value", impl=repr(rep)[:300])
+    # nothing reachable is skipped silently
+    oi = wb.formulas() if outs is None else [wb.index_of(a) for a in outs]
+    witness = pert is not None and pert[3] == 'witness'
+    for through_failing in ((False, True) if (sound or witness) else ()):
+        seen, todo = set(), list(oi)
+        while todo:
+            x = todo.pop()
+            if x in seen:
+                continue
+            seen.add(x)
+            fails = wb.nodes[x]['kind'] == 'formula' and scratch[x][0] == 'raise'
+            if fails and x not in listed:
+                what = "a reachable cell that cannot be evaluated is under neither exceptions nor not-implemented"
+                if through_failing:
+                    unlisted(ctx, dict(case, variant='precedents-of-a-failing-cell', skipped=wb.nodes[x]['addr']),
+                             what + " (reached only through another cell that raises)", impl=repr(listed)[:300])
+                    break
+                ctx.violation(dict(case, variant='oracle', skipped=wb.nodes[x]['addr']), what, impl=repr(listed)[:300])
+            if through_failing or not fails:
+                todo.extend(wb.nodes[x]['deps'])
+    if witness and wb.index_of(pert[0]) not in mism:
+        unlisted(ctx, dict(case, variant='precedents-of-a-failing-cell', skipped=pert[0]),
+                 "the altered stored result of a cell reachable from the checked output is not reported: the walk stops "
+                 "at the cell that raises", impl=repr(rep)[:300], expected=pert[0])
+
+
+def compare_failing(ctx, batch):
+    answers = ctx.model.batch([b[2] for b in batch])
+    for (case, wb, _, irep, isnap, ibk, did_raise, iraised), ans in zip(batch, answers):
+        if not (isinstance(ans, list) and len(ans) == 7 and all(isinstance(x, list) for x in ans)):
+            ctx.divergence(case, 'n/a', ans, 'Model/ValidateFail.v validate_f entry rejected the input')
+            continue
+        left, _verified, mrep, msnap, mni, mex, mraised = ans
+        if left and not mraised:
+            ctx.count(('f-fuel', repr(case)), kind='model:out-of-fuel')
+            continue
+        mrep = [(e[0], canon_model(dec_val(e[1])), canon_model(dec_val(e[2]))) for e in mrep]
+        msnap = {i: canon_model(dec_val(x[1])) for i, x in enumerate(msnap) if x[0] == 1}
+        if has_marker([m[1:] for m in mrep]) or has_marker(list(msnap.values())):
+            ctx.count(('f-unmodelled', repr(case)), kind='model:unmodelled-operator')
+            continue
+        ctx.count(('f-corr', repr(case)), kind='correspondence:failing:' + ('raise_exceptions' if did_raise else
+                  'buckets' if (ibk[0] or ibk[1]) else 'no-exception'))
+        if did_raise != bool(mraised):
+            ctx.divergence(case, did_raise, mraised, 'Model/ValidateFail.v fs_raised <> None iff validate_calcs('
+                           'raise_exceptions=True) raises')
+            continue
+        if did_raise:
+            if iraised != mraised[1:]:
+                ctx.divergence(case, iraised, mraised, "Model/ValidateFail.v fs_raised: chain = the cells of the 'Eval:' "
+                               "lines of the exception that leaves validate_calcs")
+                continue
+        else:
+            mbk = [[["".join(chr(c) for c in k), es] for k, es in b] for b in (mni, mex)]
+            if mbk != ibk:
+                ctx.divergence(case, ibk, mbk, "Model/ValidateFail.v failed_buckets = failed['not-implemented'], "
+                               "failed['exceptions'] (keys in order, entries in order: cell, chain of the message)")
+                continue
+            if [m[0] for m in mrep] != [i[0] for i in irep] or any(
+                    not (same(m[1], i[1]) and same(m[2], i[2])) for m, i in zip(mrep, irep)):
+                ctx.divergence(case, irep, mrep, 'Model/ValidateFail.v fs_report = validate_calcs mismatch dictionary')
+                continue
+        if set(msnap) != set(isnap) or any(not same(msnap[i], isnap[i]) for i in isnap):
+            diff = {i: (isnap.get(i, '<unbuilt>'), msnap.get(i, '<unbuilt>')) for i in set(isnap) | set(msnap)
+                    if i not in isnap or i not in msnap or not same(msnap[i], isnap[i])}
+            ctx.divergence(case, diff, 'see impl', 'Model/ValidateFail.v final cache = cell_map values after validate_calcs')
+
+
 def run(ctx):
     ensure_impl_on_path()
     from pycel import ExcelCompiler
@@ -734,6 +1080,7 @@ def run(ctx):
             ctx.broke('harness: correspondence-only stream failed', repr(exc))
     magnitude_stream(ctx, ExcelCompiler, batch)
     unbounded_stream(ctx, ExcelCompiler)
+    failing_stream(ctx, ExcelCompiler)
     if ctx.model:
         compare(ctx, batch)
     close_enough_leg(ctx)
